@@ -4,7 +4,8 @@
 (*                                                                         *)
 (* Ground truth G = [fps, dsc, tcp, meta, cues]                            *)
 (*   fps : 25 | 30 (disk format code STL25.01 / STL30.01)                  *)
-(*   dsc : 0 open subtitling, 1 / 2 level-1 / level-2 teletext             *)
+(*   dsc : 0 open subtitling, 1 / 2 level-1 / level-2 teletext,            *)
+(*         -1 blank = undefined (read like teletext, rows not clamped)     *)
 (*   tcp : programme start timecode <<h, m, s, f>>                         *)
 (*   meta: function GSI field name |-> atom                                *)
 (*   cues: sequence of [tci, tco, vp, jc, rows]; tci/tco = <<h,m,s,f>>;    *)
@@ -177,7 +178,9 @@ Same(R, T) == R.fps = T.fps /\ R.dsc = T.dsc /\ R.meta = T.meta /\ SameCues(R.cu
 \* a written file may spell out defaults for mandatory GSI fields the list does not carry (language, country)
 MetaCarried(R, T) == \A k \in DOMAIN T : k \in DOMAIN R /\ R[k] = T[k]
 \* under the teletext display standards the vertical position is a row number 1..23
-ClampVp(vp, dsc) == IF dsc = 0 THEN vp ELSE IF vp < 1 THEN 1 ELSE IF vp > 23 THEN 23 ELSE vp
+ClampVp(vp, dsc) == IF dsc \notin {1, 2} THEN vp ELSE IF vp < 1 THEN 1 ELSE IF vp > 23 THEN 23 ELSE vp
+\* a list that carries STL metadata without a country of origin denotes a blank country: the writer has no default to spell out
+CountryKept(R, T) == ("co" \in DOMAIN R.meta) = ("co" \in DOMAIN T.meta)
 \* a flag that is explicitly off and a flag that was never set denote the same (the writer only marks what is on)
 OffIsUnset(rows) == [i \in DOMAIN rows |-> [j \in DOMAIN rows[i] |->
                        [rows[i][j] EXCEPT !.it = IF @ = 1 THEN 0 ELSE @, !.un = IF @ = 1 THEN 0 ELSE @, !.bx = IF @ = 1 THEN 0 ELSE @]]]
